@@ -309,8 +309,42 @@ def run(case):
             out.append(c)
         return out
 
-    root = type('Root', (), {})
-    proot = type('PRoot', (desper.Processor,), {'process': lambda self, dt=1: None})
+    # Value flavours of the instances.  The model never looks at a component
+    # or processor as a value, so the doubles are as hostile as Python allows:
+    # ~35 % of the instances are falsy (through __bool__, or through __len__
+    # == 0 when the case's root has no __bool__), ~20 % have an __eq__ that
+    # always answers True / always False (identity hash).  The harness itself
+    # only ever uses `is` / id() on them.
+    qseed = int(case.get('qseed', 0))
+    use_len = random.Random(qseed * 31 + 5).random() < 0.3
+
+    def value_ns():
+        def _eq(self, other):
+            m = self.__dict__.get('_wq_eq', 0)
+            return True if m == 1 else False if m == 2 else self is other
+
+        def _ne(self, other):
+            m = self.__dict__.get('_wq_eq', 0)
+            return False if m == 1 else True if m == 2 else self is not other
+        ns = {'__eq__': _eq, '__ne__': _ne, '__hash__': object.__hash__}
+        if use_len:
+            ns['__len__'] = lambda self: 0 if self.__dict__.get('_wq_falsy') else 1
+        else:
+            ns['__bool__'] = lambda self: not self.__dict__.get('_wq_falsy')
+        return ns
+
+    def flavour(obj, salt, n):
+        r = random.Random(qseed * 7919 + salt * 104729 + n)
+        obj.__dict__['_wq_falsy'] = r.random() < 0.35
+        x = r.random()
+        obj.__dict__['_wq_eq'] = 1 if x < 0.1 else 2 if x < 0.2 else 0
+        return obj
+
+    root = type('Root', (), value_ns())
+    pns = value_ns()
+    pns['process'] = lambda self, dt=1: None
+    proot = type('PRoot', (desper.Processor,), pns)
+    default = object()          # get_component's default: never a component
     cls = make('K', root, kinds)
     pcls = make('P', proot, pkinds)
 
@@ -336,14 +370,14 @@ def run(case):
 
     def cobj(u, c):
         if c not in comp:
-            comp[c] = cls[u]()
+            comp[c] = flavour(cls[u](), 1, c)
             ctype[c] = u
             comp_id[id(comp[c])] = c
         return comp[c]
 
     def pobj(u, p):
         if p not in proc:
-            proc[p] = pcls[u]()
+            proc[p] = flavour(pcls[u](), 2, p)
             ptype[p] = u
             proc_id[id(proc[p])] = p
         return proc[p]
@@ -409,7 +443,9 @@ def run(case):
                 r = w.has_component(real(q[1]), cls[q[2]])
                 return ['has', q[1], q[2], r] if isinstance(r, bool) else ['err']
             if k == 'gc':
-                return ['gc', q[1], q[2], cid(w.get_component(real(q[1]), cls[q[2]]))]
+                r = w.get_component(real(q[1]), cls[q[2]], default)
+                return ['gc', q[1], q[2], None if r is default else
+                        UNKNOWN_OBJ if r is None else cid(r)]
         except Exception:
             pass
         return ['err']
